@@ -74,7 +74,7 @@ def alone(a):
 FAULT = (f"exists(lambda a: {alone('a')} or exists(lambda b: a != b and {share('a', 'b')}, 0, len({N})), 0, len({N}))")
 contract(Q + 'NestsForNestedLogit.check_intersection', 'C12', modifies=[],
          returns='tuple[bool, str]',
-         ensures={'refused_iff_two_nests_share_an_alternative': f'result[0] == (not {FAULT})'},
+         ensures={'refused_iff_two_nests_share_an_alternative': f'c12c_verdict_is(result, not {FAULT})'},
          invariants={
              1: {'clauses': {'rows_done_clean':
                              f"forall(lambda a: not {alone('a')} and forall(lambda b: implies(a != b, not {share('a', 'b')}), 0, len({N})), 0, _k)"}},
@@ -104,11 +104,11 @@ COVERED = f'c12c_covered({CS}, {N}, self.alone)'
 INSIDE = f'c12c_inside({CS}, {N})'
 ALONE_INSIDE = f'c12c_set_inside(self.alone, {CS})'
 contract(Q + 'Nests.check_union', 'C12', modifies=[], returns='tuple[bool, str]', exact_self=False,
-         ensures={'accepted_iff_nests_and_alone_cover_exactly_the_choice_set': f'result[0] == {UNION_OK}',
-                  'accepted_implies_covered': f'implies(result[0], {COVERED})',
-                  'accepted_implies_inside': f'implies(result[0], {INSIDE})',
-                  'accepted_implies_alone_inside': f'implies(result[0], {ALONE_INSIDE})',
-                  'refused_implies_fault': f'implies(not result[0], not (({COVERED}) and ({INSIDE}) and ({ALONE_INSIDE})))',
+         ensures={'accepted_iff_nests_and_alone_cover_exactly_the_choice_set': f'c12c_verdict_is(result, {UNION_OK})',
+                  'accepted_implies_covered': f'implies(c12c_verdict_is(result, True), {COVERED})',
+                  'accepted_implies_inside': f'implies(c12c_verdict_is(result, True), {INSIDE})',
+                  'accepted_implies_alone_inside': f'implies(c12c_verdict_is(result, True), {ALONE_INSIDE})',
+                  'refused_implies_fault': f'implies(c12c_verdict_is(result, False), not (({COVERED}) and ({INSIDE}) and ({ALONE_INSIDE})))',
                   },
          replay=REPLAY_NESTS + '''
 wrong = []
@@ -139,9 +139,9 @@ detail = f'(case, choice set, nests, alone, check_union()[0], expected): {wrong[
 ''')
 
 contract(Q + 'NestsForNestedLogit.check_partition', 'C12', modifies=[], returns='tuple[bool, str]',
-         ensures={'accepted_iff_union_and_intersection_checks_pass': f'result[0] == (({UNION_OK}) and not ({FAULT}))',
+         ensures={'accepted_iff_union_and_intersection_checks_pass': f'c12c_verdict_is(result, ({UNION_OK}) and not ({FAULT}))',
                   'accepted_iff_partition_elementwise':
-                      f'result[0] == (({COVERED}) and ({INSIDE}) and ({ALONE_INSIDE}) and not ({FAULT}))'},
+                      f'c12c_verdict_is(result, ({COVERED}) and ({INSIDE}) and ({ALONE_INSIDE}) and not ({FAULT}))'},
          replay=REPLAY_NESTS + '''
 wrong = []
 for cs, lists in SHAPES:
